@@ -191,7 +191,55 @@ def r5_hash_of_the_configured_password(ctx):
         ctx.ob("R06.5", "listen:hands-the-configured-hash-to-the-connection", ok, sp[0].site if sp else "", "the connection task captures self.password_hash" if ok else "the connection task does not use the server's configured hash")
 
 
+def r6_reads_are_whole_and_direct(ctx):
+    """(a) a preamble read is never dropped half-way and issued again (read_exact is not cancellation safe: the bytes it had
+    already taken are forgotten, so the comparison / the skip happens at a shifted offset); (b) the preamble is read from the very
+    stream the session then reads from, with no limiting adaptor in between (a cap smaller than 34 + 65535 bytes makes a correct
+    password with a long padding0 fail)"""
+    from .C11 import _future_calls
+    body = co(ctx, "R06.6", AUTHF)
+    if body is not None:
+        cfg, o = ctx.cfg(body), ctx.origins(body)
+        reads = calls_norm(body, "AsyncReadExt::read_exact")
+        wrapped = set()
+        for c in body.calls():
+            nm = c.norm or ""
+            if nm.endswith(("time::timeout", "time::timeout_at")) and len(c.args) > 1:
+                ts = [o.of_operand(c.args[1])]
+            elif nm.endswith("future::poll_fn") and c.args:
+                t0 = o.of_operand(c.args[0])
+                ts = [t0] + [o.init_of(s[2]) for s in subterms(t0) if isinstance(s, tuple) and s and s[0] == "var" and len(s) > 2]
+            else:
+                continue
+            for t in ts:
+                wrapped |= {s[2] for s in _future_calls(t) if is_call_term(s, "AsyncReadExt::read_exact")}
+        for n, r in enumerate(reads):
+            bad = r.bb in wrapped and cfg.in_cycle(r.bb)
+            ctx.ob("R06.6", "authenticate_client:read#%d-is-not-cancelled-and-retried" % n, not bad, r.site,
+                   "the read runs to completion (not inside a cancelling combinator that loops back to it)" if not bad else
+                   "this read_exact is wrapped in a timeout/select and sits in a loop: when the timer fires between two fragments of the field the bytes already consumed are dropped and the retry "
+                   "continues at a shifted offset — a correct password then fails (or more than the declared padding0 is swallowed)")
+    n = 0
+    for key, body in ctx.P.scan():
+        au = calls_norm(body, AUTHF)
+        ns = calls_norm(body, "Session::new_server")
+        if not au or not ns:
+            continue
+        o = ctx.origins(body)
+        for a in au:
+            n += 1
+            ta, tn = o.of_operand(a.args[0]), o.of_operand(ns[0].args[0])
+            same = isinstance(ta, tuple) and isinstance(tn, tuple) and ta[0] == "var" and tn[0] == "var" and len(ta) > 2 and len(tn) > 2 and ta[2] == tn[2]
+            same = same or (strip_bb(ta) == strip_bb(tn) and not any(is_call_term(s, "::take", "::chain") for s in subterms(ta)))
+            ctx.ob("R06.6", "%s:preamble-read-from-the-session's-own-reader" % ctx.P.owner(key).split("::")[-1], same, a.site,
+                   "authenticate_client and Session::new_server are given the same reader" if same else
+                   "authenticate_client reads through `%s`, not through the reader the session is built on (`%s`): an adaptor between the two (take/chain/buffer) changes what the preamble parser sees "
+                   "— e.g. a byte cap below 32+2+65535 turns a correct password with a long padding0 into UnexpectedEof" % (fmt(ta)[:60], fmt(tn)[:40]))
+    ctx.floor("R06.6", "bodies that authenticate and then build a server session", n, 1)
+
+
 def run(ctx):
+    r6_reads_are_whole_and_direct(ctx)
     r5_hash_of_the_configured_password(ctx)
     r1_construct_after_auth(ctx)
     r2_full_width(ctx)
